@@ -9,7 +9,8 @@
 //	            share the objects as globals; exported module values and builtin-module tables are imported
 //	            from the real compiler+VM. The same operations are replayed on the Lean heap model
 //	            (`c09` line); outcomes and deep snapshots are compared (Disagree).
-//	exhaustive  every sequence of ≤ 2 (quick) / ≤ 3 (thorough) operations over a 12-value universe.
+//	exhaustive  every sequence of ≤ 2 operations (full operation set) and, thorough, of ≤ 3 operations
+//	            (type-directed core of the set) over a 12-value universe.
 //	programs    whole programs from lib.NewGen (Immutables on) under the per-instruction probe.
 //	immprog     immutable-heavy programs (slice/append/+/copy/iteration then writes, freeze, modules).
 //
@@ -22,6 +23,7 @@ import (
 	"encoding/json"
 	"fmt"
 	"os"
+	"runtime/pprof"
 	"strings"
 	"time"
 
@@ -111,8 +113,16 @@ func main() {
 	}
 	lib.RunProbes(res, "C09", f.Known)
 	probeO24()
+	if pf := os.Getenv("C09_PROF"); pf != "" {
+		fh, _ := os.Create(pf)
+		_ = pprof.StartCPUProfile(fh)
+		defer pprof.StopCPUProfile()
+	}
 	if os.Getenv("C09_ONLY") == "exhaustive" { // development aid: time the exhaustive stream alone
-		n := runExhaustive(f.Scale(2, 3))
+		n := runExhaustive(2, false)
+		if f.Thorough() {
+			n += runExhaustive(3, true)
+		}
 		res.Extra = map[string]interface{}{"exhaustive_sequences": n}
 		res.Write(f.Out)
 		return
@@ -121,16 +131,19 @@ func main() {
 		runSeq(s, "objops")
 	}
 	rng := lib.NewRNG(f.Seed)
-	nSeq := f.Scale(3000, 120000)
+	nSeq := f.Scale(3000, 60000)
 	for i := 0; i < nSeq; i++ {
 		r := rng.Fork()
 		runRandom(r, 12+r.Intn(f.Scale(29, 49)))
 	}
 	exLen := f.Scale(2, 3)
-	nEx := runExhaustive(exLen)
+	nEx := runExhaustive(2, false) // every operation of the full set, every sequence of length <= 2
+	if f.Thorough() {
+		nEx += runExhaustive(3, true) // length <= 3 over the type-directed core of the operation set
+	}
 	res.Exhaustive = true
 	mods := progModules()
-	nProg := f.Scale(300, 20000)
+	nProg := f.Scale(300, 6000)
 	for i, ran := 0, 0; i < 40*nProg && ran < nProg; i++ {
 		r := rng.Fork()
 		p := lib.DefaultProfile()
@@ -144,7 +157,7 @@ func main() {
 		ran++
 		runProgram("programs", src, nil, nil)
 	}
-	nImm := f.Scale(1000, 60000)
+	nImm := f.Scale(1000, 20000)
 	for i := 0; i < nImm; i++ {
 		r := rng.Fork()
 		g := &pgen{r: r}
